@@ -177,15 +177,17 @@ func (csm *ClusterShardMapper) mapMstShards(s *influxql.Measurement, csming *Clu
 			if !engineTypes[g.EngineType] {
 				continue
 			}
-			if shardKeyInfo == nil {
-				shardKeyInfo = measurements[0].GetShardKey(groups[i].ID)
+			// a measurement-level shard key can differ from shard group to shard group (ALTER ... SHARDKEY)
+			groupShardKey := shardKeyInfo
+			if groupShardKey == nil {
+				groupShardKey = measurements[0].GetShardKey(groups[i].ID)
 			}
 			aliveShardIdxes := csm.MetaClient.GetAliveShards(s.Database, &groups[i], true)
 			var shs []meta2.ShardInfo
 			if opt.HintType == hybridqp.FullSeriesQuery || opt.HintType == hybridqp.SpecificSeriesQuery {
-				shs, csming.seriesKey = groups[i].TargetShardsHintQuery(measurements[0], shardKeyInfo, condition, opt, aliveShardIdxes)
+				shs, csming.seriesKey = groups[i].TargetShardsHintQuery(measurements[0], groupShardKey, condition, opt, aliveShardIdxes)
 			} else {
-				shs = groups[i].TargetShards(measurements[0], shardKeyInfo, condition, aliveShardIdxes)
+				shs = groups[i].TargetShards(measurements[0], groupShardKey, condition, aliveShardIdxes)
 			}
 
 			csm.updateShardInfosByPtID(s, g, shs, &shardInfosByPtID)
